@@ -81,4 +81,76 @@ example : let t := ((({} : POut).push [1, 2] (some ([7], ⟨10, 12⟩))).push []
     (List.range 5).map t.origin = [some ([7], 10), some ([7], 11), some ([8], 0), some ([8], 1), some ([8], 2)] := by
   decide
 
+
+/-! ## where expansions, definitions and `__FILE__` / `__LINE__` point (walker model, all inputs) -/
+
+
+/-- **expansions map to the macro definition**: whenever `resolve_text_macro_usage` produces text, the origin it hands to `push` is the
+    origin recorded with the macro's body when it was defined (file of the definition, range of the macro text) — or none for a macro
+    without recorded origin (caller-supplied, SV_COV seeds) -/
+theorem C03_expansion_origin (C : Cfg) (fuel : Nat) (inp : Input) (s path : Bytes) (x : Tree) (d : Defines) (ii sc : Bool) (rd id : Nat)
+    (t : Bytes) (org : Option (Bytes × Range)) (nd : Defines)
+    (h : resolveUsage C fuel inp s path x d ii sc rd id = .ok (some (t, org, nd))) :
+    ∃ df dt, d.get? (usageName C.K inp x) = some (some df) ∧ df.text = some dt ∧ org = dt.origin := by
+  cases fuel with
+  | zero => simp [resolveUsage] at h
+  | succ n =>
+    simp only [resolveUsage] at h
+    split at h
+    · cases h
+    · split at h
+      · cases h
+      · cases h
+      · rename_i df hdf
+        split at h
+        · cases h
+        · split at h
+          · cases h
+          · split at h
+            · cases h
+            · rename_i dt hdt
+              split at h
+              · cases h
+              · rename_i out nd' hpp
+                injection h with h; injection h with h; injection h with h1 h2; injection h2 with h2 h3
+                exact ⟨df, dt, hdf, hdt, h2.symm⟩
+
+theorem pushLoc_defines' (inp : Input) (path : Bytes) (w : WState) (x : Tree) : (pushLoc inp path w x).defines = w.defines := by
+  unfold pushLoc; split <;> rfl
+
+/-- **a definition records where its body stands**: after `` `define N … body `` (N not predefined) the table entry of N carries the body
+    text and, as origin, the defining file together with exactly the byte range of the macro text -/
+theorem C03_define_records_body (C : Cfg) (recI) (recU) (inp : Input) (s path : Bytes) (ii sc : Bool) (rd id : Nat) (w w' : WState) (x : Tree)
+    (sym kw proto : Tree) (rest : List Tree) (mt : Tree) (o l n : Nat) (hk : x.kids = sym :: kw :: proto :: rest)
+    (hmt : rest.find? (fun k => k.baseKind == C.K.macroText) = some mt) (hl : locOf mt = some (o, l, n))
+    (hp : isPredefined (defineName C.K inp proto) = false)
+    (h : armDefine C recI recU inp s path ii sc rd id w x = .ok w') :
+    ∃ df, w'.defines.get? (defineName C.K inp proto) = some (some df) ∧
+      df.text = some { text := bytesOf inp o l, origin := some (path, ⟨o, o + l⟩) } := by
+  unfold armDefine at h
+  simp only [hk, hp, Bool.not_false, if_true, hmt, hl] at h
+  injection h with h; subst h
+  simp only [pushLoc_defines']
+  have key : ∀ (dd : Defines) (k : Bytes) (v : Option Define), (dd.insert k v).get? k = some v := by
+    intro dd k v; simp [Defines.insert, Defines.get?]
+  exact ⟨_, key _ _ _, rfl⟩
+
+
+/-- **`__FILE__` / `__LINE__` have no origin**: whatever the position arm emits is pushed without a source -/
+theorem C03_position_no_origin (C : Cfg) (recI) (recU) (inp : Input) (s path : Bytes) (ii sc : Bool) (rd id : Nat) (w w' : WState) (x : Tree)
+    (h : armPosition C recI recU inp s path ii sc rd id w x = .ok w') :
+    w'.out = w.out ∨ ∃ t, w'.out = w.out.push t none := by
+  unfold armPosition at h
+  dsimp only at h
+  repeat' split at h
+  all_goals first
+    | (cases h; done)
+    | skip
+  all_goals (injection h with h; subst h; dsimp only; simp only [skipPush_out])
+  all_goals first
+    | (left; rfl)
+    | (left; trivial)
+    | trivial
+    | (right; exact ⟨_, rfl⟩)
+
 end Sv
